@@ -280,7 +280,7 @@ def handle (st : State) (cmd : String) (inp obsToks : List String) : State × St
     | _ => (st, "BADLINE")
   | "hp.uniforms", [us] =>
     match (us.splitOn ",").mapM parseInt? with
-    | some l => ({ st with uniforms := l.map fun k => mkRat k 64 }, "ok")
+    | some l => ({ st with uniforms := l.map fun k => mkRat k 1048576 }, "ok")
     | none => (st, "BADLINE")
   | "hp.cfg", toks =>
     let get (key : String) : Option String := toks.findSome? (kv? · key)
